@@ -979,7 +979,11 @@ func (t *tScreen) ShowCursor(x, y int) {
 func (t *tScreen) SetCursor(cs CursorStyle, cc Color) {
 	t.Lock()
 	t.cursorStyle = cs
-	t.cursorColor = cc
+	if cc != ColorNone {
+		// ColorNone leaves the colour as it is: keep remembering what
+		// we set, so that it is still reset when we let go of the terminal
+		t.cursorColor = cc
+	}
 	t.Unlock()
 }
 
@@ -2171,7 +2175,7 @@ func (t *tScreen) disengage() {
 	if t.cursorStyles != nil && t.cursorStyle != CursorStyleDefault {
 		t.TPuts(t.cursorStyles[CursorStyleDefault])
 	}
-	if t.cursorFg != "" && t.cursorColor.Valid() {
+	if t.cursorFg != "" && (t.cursorColor.Valid() || t.cursorColor == ColorReset) {
 		t.TPuts(t.cursorFg)
 	}
 	t.TPuts(ti.ResetFgBg)
